@@ -26,7 +26,7 @@ FLOORS = {"quick": {"qualified_expression_refs": 60, "pairs_compared": 50000, "c
           "thorough": {"qualified_expression_refs": 1500, "pairs_compared": 2000000, "chain_position_combos": 300, "string_ref_calls": 200000, "builds": 50000, "codec_pairs_compared": 350000, "bytes_like_pairs_compared": 100000, "bytes_chain_combos": 80}}
 
 NAMED = ["newtype", "alias", "stralias"]
-POSITIONS = ["root", "coll", "mapval", "tuple", "union", "field", "pair", "pair"]
+POSITIONS = ["root", "coll", "mapval", "tuple", "union", "union_sibling", "field", "pair", "pair"]
 
 
 def outcome(fn, *a):
@@ -52,13 +52,23 @@ def place(prog, gen, spec, pos, tag):
         return f"tuple[int, {s}]", None
     if pos == "union":
         return f"typing.Optional[{s}]", None
+    if pos == "union_sibling":
+        # a union with ANOTHER user class declared first, one that shares the first field name of the wrapped class (when it has
+        # fields): which member answers must not depend on how the second one is spelled. Both placements use the same sibling.
+        sib = getattr(prog, "_c11_sibling", None)
+        if sib is None:
+            base = spec.peel()
+            f0 = base.info["fields"][0][0] if base.kind == "struct" and base.info.get("fields") else "zz"
+            sib = prog._c11_sibling = prog.fresh("Sib")
+            prog.emit(f"@dataclasses.dataclass\nclass {sib}:\n    {f0}: typing.Any = None\n")
+        return f"typing.Union[{sib}, {s}]", None
     name = prog.fresh("F" + tag)
     prog.emit(f"@dataclasses.dataclass\nclass {name}:\n    f: {s}\n    g: int = 0\n")
     return name, "f"
 
 
 def embed_value(pos, v):
-    return {"root": v, "coll": [v, v], "mapval": {"k": v}, "tuple": (3, v), "union": v, "field": None, "pair": (v, v)}[pos]
+    return {"root": v, "coll": [v, v], "mapval": {"k": v}, "tuple": (3, v), "union": v, "union_sibling": v, "field": None, "pair": (v, v)}[pos]
 
 
 def canaries(sh):
